@@ -17,6 +17,7 @@
 EXTENDS Poly, Shape, TLC
 
 KeyOffset == 59
+ExpClamp == 1073741824     \* the projection clamps exponents >= 2^30: no real exponent is that large
 ForbiddenCodePoint == 58
 
 RowMono(names, row) ==
@@ -31,6 +32,7 @@ WellFormedClause(v) ==
   IF v.kind # "poly" THEN "ok"
   ELSE IF Len(v.names) < 1 \/ ~Distinct(v.names) THEN "wf_names"
   ELSE IF \E r \in 1..Len(v.rows) : Len(v.rows[r]) # Len(v.names) THEN "wf_width"
+  ELSE IF \E r \in 1..Len(v.rows), j \in 1..Len(v.names) : v.rows[r][j] >= ExpClamp THEN "wf_exponent_out_of_range"
   ELSE IF ~Distinct(v.rows) THEN "wf_duplicate_rows"
   ELSE IF Size(v.shape) > 0 /\ Len(v.coefs) # Len(v.rows) THEN "wf_coef_count"
   ELSE IF Size(v.shape) > 0 /\ \E r \in 1..Len(v.rows) :
